@@ -3,6 +3,11 @@
 // atomic, promise/future, steady_clock token-renamed), a scripted MetricProducer and a harness PushMetricExporter.
 //
 //   pmr <nrec> <recs each> <flushers e.g. i2> <nshut> <exporter script> ; <action> ; ...
+//     nrec suffix = how the reader is built: none = (exporter, options) constructor, r = (exporter, options, runtime options)
+//       constructor, f / g = the factory's Create with two / three arguments, x / y = options the two- / three-argument
+//       constructor refuses (export_interval <= export_timeout: it falls back to its defaults) - all must behave as the same reader.
+//     flushers: 'i' = max, digit k = k * interval, 'h' = half an interval (the wait is clipped to the caller's timeout),
+//       'u' = one microsecond.   nshut suffix: none = Shutdown() (max), 't' finite, 'z' zero, 'u' one microsecond.
 //     threads: 0 = the reader's worker, 1..nrec recorders, then ForceFlush callers, then Shutdown callers; collect threads
 //     get the next free ids as the worker spawns them.  actions as in d_batch.cc (t<i>, o<i>, w<i>).
 #include "common.h"
@@ -11,6 +16,8 @@
 #define protected public
 #include "opentelemetry/sdk/metrics/export/metric_producer.h"
 #include "opentelemetry/sdk/metrics/export/periodic_exporting_metric_reader.h"
+#include "opentelemetry/sdk/metrics/export/periodic_exporting_metric_reader_factory.h"
+#include "opentelemetry/sdk/metrics/export/periodic_exporting_metric_reader_runtime_options.h"
 #include "opentelemetry/sdk/metrics/export/periodic_exporting_metric_reader_options.h"
 #include "opentelemetry/sdk/metrics/push_metric_exporter.h"
 #undef private
@@ -99,11 +106,14 @@ static std::string handle(const std::vector<std::string> &t)
     return !s.empty() && *e == 0;
   };
   unsigned long nrec, recs, nshut;
+  char ctor = 0, shut_to = 0;
+  if (!ops[0][0].empty() && std::string("rfgxy").find(ops[0][0].back()) != std::string::npos) { ctor = ops[0][0].back(); ops[0][0].pop_back(); }
+  if (!ops[0][3].empty() && std::string("tzu").find(ops[0][3].back()) != std::string::npos) { shut_to = ops[0][3].back(); ops[0][3].pop_back(); }
   if (!num(ops[0][0], nrec) || !num(ops[0][1], recs) || !num(ops[0][3], nshut)) return "bad-op";
   std::string fl = ops[0][2] == "-" ? "" : ops[0][2];
   std::string xs = ops[0][4] == "-" ? "" : ops[0][4];
   for (char c : fl)
-    if (c != 'i' && !(c >= '0' && c <= '9')) return "bad-op";
+    if (c != 'i' && c != 'h' && c != 'u' && !(c >= '0' && c <= '9')) return "bad-op";
   if (nrec > 4 || recs > 6 || fl.size() > 3 || nshut > 2) return "bad-op";
   Shared sh;
   for (char c : xs)
@@ -132,7 +142,15 @@ static std::string handle(const std::vector<std::string> &t)
   opt.export_interval_millis = std::chrono::milliseconds(1000);
   opt.export_timeout_millis  = std::chrono::milliseconds(500);
   HProducer producer(&sh);
-  auto *reader = new sdkm::PeriodicExportingMetricReader(std::unique_ptr<sdkm::PushMetricExporter>(new HExporter(&sh)), opt);
+  if (ctor == 'x' || ctor == 'y') opt.export_interval_millis = std::chrono::milliseconds(400);  // <= timeout: refused, defaults are used
+  sdkm::PeriodicExportingMetricReaderRuntimeOptions ropt;
+  std::unique_ptr<sdkm::PushMetricExporter> hex(new HExporter(&sh));
+  sdkm::PeriodicExportingMetricReader *reader =
+      (ctor == 'r' || ctor == 'y') ? new sdkm::PeriodicExportingMetricReader(std::move(hex), opt, ropt)
+      : ctor == 'f' ? static_cast<sdkm::PeriodicExportingMetricReader *>(sdkm::PeriodicExportingMetricReaderFactory::Create(std::move(hex), opt).release())
+      : ctor == 'g' ? static_cast<sdkm::PeriodicExportingMetricReader *>(sdkm::PeriodicExportingMetricReaderFactory::Create(std::move(hex), opt, ropt).release())
+                    : new sdkm::PeriodicExportingMetricReader(std::move(hex), opt);
+  const std::string cfg_seen = std::to_string(reader->export_interval_millis_.count()) + "/" + std::to_string(reader->export_timeout_millis_.count());
   detsched::name_object(&reader->shutdown_, "shutdown");
   detsched::name_object(&reader->is_force_wakeup_background_worker_, "wake");
   detsched::name_object(&reader->force_flush_pending_sequence_, "pending");
@@ -160,7 +178,10 @@ static std::string handle(const std::vector<std::string> &t)
     detsched::spawn([&, c] {
       detsched::point("begin", nullptr);
       detsched::note("flush-begin " + std::to_string(sh.recorded));
-      auto to = c == 'i' ? (std::chrono::microseconds::max)() : std::chrono::duration_cast<std::chrono::microseconds>(delay * (c - '0'));
+      auto to = c == 'i'   ? (std::chrono::microseconds::max)()
+                : c == 'h' ? std::chrono::duration_cast<std::chrono::microseconds>(delay) / 2
+                : c == 'u' ? std::chrono::microseconds(1)
+                           : std::chrono::duration_cast<std::chrono::microseconds>(delay * (c - '0'));
       bool r  = reader->ForceFlush(to);
       detsched::note(std::string("flush-ret ") + (r ? "1" : "0"));
     });
@@ -170,7 +191,10 @@ static std::string handle(const std::vector<std::string> &t)
     detsched::spawn([&] {
       detsched::point("begin", nullptr);
       detsched::note("shutdown-begin");
-      bool r = reader->Shutdown();
+      bool r = shut_to == 0     ? reader->Shutdown()
+               : shut_to == 't' ? reader->Shutdown(std::chrono::duration_cast<std::chrono::microseconds>(delay * 3))
+               : shut_to == 'z' ? reader->Shutdown(std::chrono::microseconds::zero())
+                                : reader->Shutdown(std::chrono::microseconds(1));
       detsched::note(std::string("shutdown-ret ") + (r ? "1" : "0"));
     });
   }
@@ -195,7 +219,9 @@ static std::string handle(const std::vector<std::string> &t)
     done = detsched::drain(4000, &dtrace, -1);
   }
   if (!dtrace.empty()) outs.push_back(dtrace.substr(0, dtrace.size() - 3));
-  std::string sum = std::string("done=") + (done ? "1" : "0") + " reentrant=" + std::to_string(sh.reentrant);
+  // what the reader was configured with: under the scheduler durations are schedule actions, so the VALUES the constructor /
+  // factory kept are not visible in the trace; print them (read right after construction)
+  std::string sum = std::string("done=") + (done ? "1" : "0") + " reentrant=" + std::to_string(sh.reentrant) + " cfg=" + cfg_seen;
   outs.push_back(sum);
   if (!done)
   {
